@@ -1,4 +1,5 @@
 import DnpProofs.Lemmas.Sort
+import DnpProofs.Lemmas.ByName
 set_option linter.unusedSectionVars false
 /-!
 # C02 — relabelling operations keep each value attached to its coordinates
@@ -48,6 +49,53 @@ theorem sortDims_spec {d : Data κ α} (h : d.Consistent) :
   have hp := sortedDims_perm d.dims
   obtain ⟨h1, h2, h3⟩ := permuted_spec h hp
   exact ⟨h1, hp, h2, h3⟩
+
+/-- rename: values and coordinates stay where they are; what was labelled `dim` is labelled `new` -/
+theorem rename_spec {d d' : Data κ α} {dim new : String} (h : d.Consistent) (hr : d.rename dim new = .ok d') :
+    d'.values = d.values ∧ d'.coords = d.coords ∧ d'.dims = setAt d.dims (d.index dim) new ∧
+    ∀ ℓ : String → Nat, d'.getN (fun x => if x = new then ℓ dim else ℓ x) = d.getN ℓ :=
+  rename_byname h hr
+
+/-- sort by coordinate: a permutation `o` of the positions along `dim` moves coordinate and values together -/
+theorem sort_spec (le : κ → κ → Bool) {d d' : Data κ α} {dim : String} (h : d.Consistent) (hr : d.sort le dim = .ok d') :
+    let o := argsort le (d.coord dim)
+    o.Perm (List.range (d.coord dim).length) ∧ d'.dims = d.dims ∧
+    d'.coord dim = o.map (fun k => (d.coord dim).getD k default) ∧
+    (∀ nm, nm ≠ dim → d'.coord nm = d.coord nm) ∧
+    ∀ ℓ : String → Nat, (∀ nm ∈ d.dims, ℓ nm < d.ext nm) →
+      d'.getN ℓ = d.getN (fun x => if x = dim then o.getD (ℓ dim) 0 else ℓ x) :=
+  sort_byname le h hr
+
+/-- new_dim: one more label of extent one; nothing else moves -/
+theorem newDim_spec {d d' : Data κ α} {dim : String} {c : κ} (h : d.Consistent) (hr : d.newDim dim c = .ok d') :
+    d'.dims = d.dims ++ [dim] ∧ d'.coords = d.coords ++ [[c]] ∧
+    ∀ ℓ : String → Nat, ℓ dim = 0 → d'.getN ℓ = d.getN ℓ :=
+  newDim_byname h hr
+
+/-- concat: position k of the new dimension is object k, label for label (any number of objects, any rank) -/
+theorem concat_spec (arange : Nat → List κ) {ds : List (Data κ α)} {dim : String} {coord : Option (List κ)}
+    {r : Data κ α} (d0 : Data κ α) (rest : List (Data κ α)) (hds : ds = d0 :: rest)
+    (hall : ∀ d ∈ ds, d.Consistent) (hr : Data.concat arange ds dim coord = .ok r) :
+    r.dims = d0.dims ++ [dim] ∧
+    ∀ (ℓ : String → Nat) (k : Nat) (hk : k < ds.length), ℓ dim = k → (∀ nm ∈ d0.dims, ℓ nm < d0.ext nm) →
+      r.getN ℓ = (ds[k]).values.get (d0.dims.map ℓ) :=
+  concat_byname arange d0 rest hds hall hr
+
+/-- concatenate along `dim`: the receiver's block keeps its labels; the other operand's block follows with its own
+    coordinates; every other dimension is matched BY NAME, whatever axis order the operand had -/
+theorem concatenate_spec {d b r : Data κ α} {dim : String} (h : d.Consistent) (hb : b.Consistent)
+    (hr : d.concatenate b dim = .ok r) :
+    r.dims = d.dims ∧ r.coord dim = d.coord dim ++ b.coord dim ∧ (∀ nm, nm ≠ dim → r.coord nm = d.coord nm) ∧
+    ∀ ℓ : String → Nat, (∀ nm ∈ d.dims, nm ≠ dim → ℓ nm < d.ext nm) → ℓ dim < d.ext dim + b.ext dim →
+      r.getN ℓ = if ℓ dim < d.ext dim then d.getN ℓ
+                 else b.getN (fun x => if x = dim then ℓ dim - d.ext dim else ℓ x) :=
+  concatenate_byname h hb hr
+
+/-- unfold then fold gives back the very same object — every rank, every position of the dimension -/
+theorem unfold_fold_spec (arange : Nat → List κ) {d : Data κ α} {dim : String} (h : d.Consistent)
+    (hf : d.unf = none) (hdim : dim ∈ d.dims) (hfi : "fold_index" ∉ d.dims) :
+    (d.unfold arange dim >>= fold) = .ok d :=
+  unfold_fold_id arange h hf hdim hfi
 
 /-- the concrete 3-cycle on which the pinned `sort_dims` (moveaxis with the inverse
     permutation) produced an inconsistent object — the defect repaired by the fix commit -/
